@@ -69,7 +69,7 @@ func c19Run(r *Run, reg string, depth, shard, shards int) {
 	tShort := pad32(bytes.Repeat([]byte{0xA5}, 20)) // a 20-byte remote token, as EVM tokens are; also queried in its short spelling
 	addrX, addrY := distinct32(0xA0), distinct32(0xA1)
 	u := QUniverse{
-		Attesters: []string{Keys[0].Hex, Keys[0].Spell(1), Keys[1].Hex, Keys[2].Hex, Keys[3].Hex, "04", "0"},
+		Attesters: []string{Keys[0].Hex, Keys[0].Spell(1), Keys[1].Hex, Keys[1].Spell(2), Keys[2].Hex, Keys[3].Hex, "04", "0"},
 		Denoms:    []string{"uusdc", "uatom", "uosmo"},
 		Nonces:    []noncePair{{0, 0}, {0, 1}, {1, 0}, {1, 1}, {0, 256}},
 		Domains:   []uint32{0, 1, 256, 2},
@@ -129,7 +129,7 @@ func c19Run(r *Run, reg string, depth, shard, shards int) {
 	case "limits":
 		addLimits([]string{"uusdc", "UUSDC", "uatom"}, []int64{0, 5})
 	case "attesters":
-		addAttesters([]string{Keys[0].Hex, Keys[0].Spell(1), Keys[1].Hex, "04"})
+		addAttesters([]string{Keys[0].Hex, Keys[0].Spell(1), Keys[1].Hex, Keys[1].Spell(2), "04"}) // one key in lower and 0x spelling, another in lower and upper case
 	case "nonces":
 		addNonces([]noncePair{{0, 0}, {0, 1}, {1, 0}, {1, 1}})
 	case "combined":
